@@ -602,7 +602,7 @@ impl Check for C02 {
     }
     fn total_runs(&self, tier: Tier) -> u64 {
         match tier {
-            Tier::Quick => 20_000,
+            Tier::Quick => 100_000,
             Tier::Thorough => 1_000_000,
         }
     }
